@@ -10,6 +10,7 @@
 package bexpr
 
 import (
+	"time"
 	"encoding/json"
 	"errors"
 	"fmt"
@@ -664,6 +665,7 @@ func bxvPathCases() []bxvCase {
 	sels := []string{"M.a", "M.zz", "M.n.x", "M.n.zz", "M.zz.y", "Zz", "Zz.a", "L.0", "L.5", "L.zz", "S.x", "N.x", "PM.a", "PM.zz", "IM.zz", "St.A", "St.Zz", "L.0.A", "L.0.Zz",
 		"H.Pub", "H.priv", "H.Skip", "H.Renamed", "H.alias", "H.meta.k", "H.meta.zz", "H.Meta.k", "PH.meta.zz", "PH.alias", "H.jname", "H.J", "PH.jname", "PPM.a", "PPM.zz", "PPPM.zz", "NPM.zz", "LPM.0.zz", "LPM.0.a", "W.a", "W.zz", "W.n.x", "W.n.zz", "W.V.zz", "LW.0.zz", "LW.0.a", `"/M/a"`, `"/M/zz"`, `M["a"]`, `M["zz"]`}
 	ops := []string{"%s == 1", "%s != 1", "1 in %s", "1 not in %s", "%s is empty", "%s is not empty", "%s matches `x`", "%s not matches `x`", "%s == b", "%s == v",
+		`%s == ""`, `%s != ""`, "%s == ``", `"" in %s`, `"" not in %s`, "%s matches ``", "%s not matches ``", `%s contains ""`, "%s == 0", "%s != 0", "%s == false", "%s == nil", "%s != nil",
 		"any %s as x { x == 1 }", "all %s as x { x == 1 }", "any %s as k, v { v == 1 }"}
 	unk := []struct {
 		o []Option
@@ -736,7 +738,12 @@ func bxvCollCases() []bxvCase {
 func bxvDeterminism(fails *[]bxvFailure) int {
 	n := 0
 	d := map[string]interface{}{"M": map[string]interface{}{"a": map[string]interface{}{"x": 1}, "b": 5, "c": map[string]interface{}{"x": 2}, "d": "s"}}
-	exprs := []string{"any M as k, v { v.x == 1 }", "all M as k, v { v.x == 1 }", "any M as _, v { v.x == 2 }", "all M as _, v { v.x == 9 }", "any M as k { k == b }", "any M as _, v { v == s }", "all M as _, v { v != 5 }"}
+	exprs := []string{"any M as k, v { v.x == 1 }", "all M as k, v { v.x == 1 }", "any M as _, v { v.x == 2 }", "all M as _, v { v.x == 9 }", "any M as k { k == b }", "any M as _, v { v == s }", "all M as _, v { v != 5 }",
+		"any T as _, v { v == abc }", "all T as _, v { v != abc }", "any T as k, v { v == abc }", "any T as k { k == node }", "all U as _, v { v == abc }", "any U as _, v { v == abc }"}
+	// keys that collide under case folding, are prefixes of one another, or
+	// sort differently as bytes and as runes: one entry errors, its twin decides
+	d["T"] = map[string]interface{}{"Node": "abc", "node": 5, "NODE": 6}
+	d["U"] = map[string]interface{}{"a": "abc", "a\x00": 5, "ab": "abc", "é": 5, "z": "abc", "Z": 5}
 	for _, e := range exprs {
 		seen := map[string]int{}
 		for i := 0; i < 300; i++ {
@@ -961,6 +968,50 @@ func bxvHistory(fails *[]bxvFailure) int {
 		map[string]interface{}{"S": "abc", "X": 1, "L": []int{1, 2}, "M": map[string]int{}},
 		map[string]interface{}{"S": 5, "X": "x", "L": 5, "M": 5},
 		nil,
+	}
+	// a producer blocked on an unbuffered channel reachable from the datum must
+	// still be blocked, with its value, after any number of evaluations
+	for _, e := range []string{"C is empty", "C is not empty", "C == 1", "1 in C", "any C as x { x == 1 }", "B is empty", "B is not empty"} {
+		ev, err := CreateEvaluator(e)
+		if err != nil {
+			continue
+		}
+		c := make(chan int)
+		bc := make(chan int, 2)
+		bc <- 7
+		go func() { c <- 41 }()
+		time.Sleep(2 * time.Millisecond)
+		d := struct {
+			C chan int
+			B chan int
+		}{c, bc}
+		var outs []string
+		for i := 0; i < 3; i++ {
+			func() {
+				defer func() {
+					if r := recover(); r != nil {
+						outs = append(outs, "panic")
+					}
+				}()
+				r, err := ev.Evaluate(d)
+				outs = append(outs, fmt.Sprint(r, err != nil))
+			}()
+			n++
+		}
+		if outs[0] != outs[1] || outs[1] != outs[2] {
+			*fails = append(*fails, bxvFailure{Kind: "mismatch", Expr: e, Datum: "struct{C: unbuffered chan with a blocked sender, B: buffered chan holding 7}", Got: "successive calls: " + strings.Join(outs, " / "), Want: "the same outcome every time"})
+		}
+		select {
+		case v := <-c:
+			if v != 41 {
+				*fails = append(*fails, bxvFailure{Kind: "mismatch", Expr: e, Datum: "chan", Got: fmt.Sprint("received ", v), Want: "41"})
+			}
+		case <-time.After(200 * time.Millisecond):
+			*fails = append(*fails, bxvFailure{Kind: "mismatch", Expr: e, Datum: "struct{C: unbuffered chan with a blocked sender}", Got: "the pending value was consumed by Evaluate", Want: "the datum's channel untouched"})
+		}
+		if len(bc) != 1 {
+			*fails = append(*fails, bxvFailure{Kind: "mismatch", Expr: e, Datum: "struct{B: buffered chan holding 7}", Got: fmt.Sprint("buffered channel now holds ", len(bc)), Want: "1 element"})
+		}
 	}
 	for _, e := range exprs {
 		used, err := CreateEvaluator(e)
@@ -1326,8 +1377,11 @@ func TestBxvBattery(t *testing.T) {
 		run(bxvBoolCases(), false)
 		run(bxvPathCases(), false)
 		run(bxvCollCases(), false)
-	case "C02", "C04":
+	case "C02":
 		run(bxvOpCases(), true)
+	case "C04":
+		run(bxvOpCases(), true)
+		run(bxvPathCases(), true) // absent keys: the disposition of a negated operator is the complement too
 	case "C03":
 		run(bxvBoolCases(), true)
 	case "C08":
